@@ -73,6 +73,7 @@ def main(argv):
 
 
 if __name__ == "__main__":
+    sys.unraisablehook = lambda *a: None  # Channel.__del__ of leftovers after a finished simulation
     try:
         rc = main(sys.argv[1:])
     except SystemExit:
